@@ -31,7 +31,7 @@ from kopf._core.reactor import orchestration
 from kv.explorer import Env, Scenario, UserAction, Violation, execute
 from kv.harness.op import make_settings, make_vault, resource_of
 from kv.runner import CheckResult, run_groups
-from kv.world import EPOCH, KEX, KEX2, NS_PEERING, Kind, Request, Stream
+from kv.world import CRDS, EPOCH, EVENTS, KEX, KEX2, NAMESPACES, NS_PEERING, Kind, Request, Stream
 
 INACTIVITY = 20.0
 
@@ -399,6 +399,153 @@ class OrchestrationScenario(Scenario):
         return out
 
 
+# ---- (c) the whole operator: kinds, versions, categories and namespaces come and go in the cluster ------------
+
+import dataclasses
+
+KEX_V2 = dataclasses.replace(KEX, version='v2')
+WIDGETS = dataclasses.replace(KEX2, categories=('widgets',))
+
+
+def _crd_body(kind: Kind, versions: list[str], categories: tuple[str, ...]) -> dict:
+    return {'spec': {'group': kind.group, 'scope': 'Namespaced', 'names': {'plural': kind.plural, 'kind': kind.kind, 'categories': list(categories)},
+                     'versions': [{'name': v, 'served': True, 'storage': i == 0} for i, v in enumerate(versions)]}}
+
+
+class DiscoveryScenario(Scenario):
+    """kopf.operator(namespaces=['n*']) with one handler selecting a kind by its plural name (any version: the preferred one
+    counts) and one selecting by category; the cluster's CRDs, their versions/categories and its namespaces change."""
+    name = 'c19-discovery'
+    prop = 'C19'
+    kinds = [NAMESPACES, EVENTS, CRDS, KEX]
+    horizon = 60.0
+
+    def delays(self, env: Env, req: Request) -> bool:
+        return False
+
+    def allow_time_deviation(self, env: Env) -> bool:
+        return False
+
+    def allow_early_user(self, env: Env, action: UserAction) -> bool:
+        return bool(self.params.get('early_user'))
+
+    def setup(self, env: Env) -> None:
+        import kopf
+        from kv.harness.op import Operator, add_login
+        w = env.world
+        w.preferred = {}     # type: ignore[attr-defined]
+        w.create(NAMESPACES, None, 'n0', {})
+        w.create(NAMESPACES, None, 'other', {})
+        w.create(CRDS, None, 'kopfexamples.kopf.dev', _crd_body(KEX, ['v1'], ()))
+        reg = kopf.OperatorRegistry()
+        add_login(reg, w)
+
+        async def ev(**_: Any) -> None:
+            return None
+        kopf.on.event('kopfexamples', id='by-name', registry=reg)(ev)
+        kopf.on.event(category='widgets', id='by-category', registry=reg)(ev)
+        self.op = Operator(env, 'A', reg, make_settings(), clusterwide=False, namespaces=['n*'])
+        self.op.start()
+
+    def script(self, env: Env) -> list[UserAction]:
+        def mk(action: str) -> Any:
+            def fn(e: Env) -> None:
+                w = e.world
+                if action == 'addns':
+                    w.create(NAMESPACES, None, 'n1', {})
+                elif action == 'delns':
+                    w.delete(NAMESPACES, None, 'n1')
+                elif action == 'addcrd':
+                    w.add_kind(WIDGETS)
+                    w.create(CRDS, None, 'kopfwidgets.kopf.dev', _crd_body(WIDGETS, ['v1'], ('widgets',)))
+                elif action == 'delcrd':
+                    w.remove_kind(WIDGETS)
+                    w.delete(CRDS, None, 'kopfwidgets.kopf.dev')
+                elif action == 'decat':       # the kind leaves the category the handler selects by
+                    w.remove_kind(WIDGETS)
+                    w.add_kind(dataclasses.replace(WIDGETS, categories=()))
+                    w.merge(CRDS, None, 'kopfwidgets.kopf.dev', _crd_body(WIDGETS, ['v1'], ()))
+                elif action == 'addver':      # a new, now preferred, version of the kind selected by name
+                    w.add_kind(KEX_V2)
+                    w.preferred['kopf.dev'] = 'v2'     # type: ignore[attr-defined]
+                    w.merge(CRDS, None, 'kopfexamples.kopf.dev', _crd_body(KEX, ['v2', 'v1'], ()))
+                elif action == 'delver':
+                    w.remove_kind(KEX_V2)
+                    w.preferred.pop('kopf.dev', None)  # type: ignore[attr-defined]
+                    w.merge(CRDS, None, 'kopfexamples.kopf.dev', _crd_body(KEX, ['v1'], ()))
+                else:
+                    raise ValueError(action)
+            return fn
+        return [UserAction(float(at), action, mk(action)) for at, action in self.params['user']]
+
+    def check(self, env: Env) -> list[Violation]:
+        out: list[Violation] = []
+        if env.end_reason in ('stall', 'livelock', 'step-budget'):
+            return [self.viol(env, 'no-progress', f'execution ended with {env.end_reason}', end=env.end_reason)]
+        for t, k, p in env.obs:
+            if k == 'operator-exit':
+                out.append(self.viol(env, 'operator-failed', f"t={t}: the operator ended ({p.get('how')}: {p.get('error')})", clause='coverage'))
+        if env.owes() or out:
+            return out
+        w = env.world
+        kinds = list(w.kinds.values())
+        served: set[tuple[str, str, str]] = set()
+        # versionless selectors serve a resource only in the PREFERRED version of its API group (references.Resource.preferred)
+        pref = w._preferred('kopf.dev', {k.version for k in kinds if k.group == 'kopf.dev'})
+        served |= {k.key for k in kinds if k.plural == 'kopfexamples' and k.version == pref}
+        served |= {k.key for k in kinds if 'widgets' in k.categories and k.version == pref}
+        namespaces = {name for (_, name), o in w.objects[NAMESPACES.key].items() if name.startswith('n') and 'deletionTimestamp' not in o['metadata']}
+        want = {(key, ns) for key in served for ns in namespaces}
+        have: dict[tuple[Any, Any], int] = {}
+        for s in w.open_streams():
+            if s.kind.key in (NAMESPACES.key, CRDS.key):
+                continue
+            have[(s.kind.key, s.namespace)] = have.get((s.kind.key, s.namespace), 0) + 1
+        for key in sorted(want, key=str):
+            if have.get(key, 0) != 1:
+                out.append(self.viol(env, 'watch-missing' if have.get(key, 0) == 0 else 'watch-duplicated',
+                                     f"served pair {key} has {have.get(key, 0)} open watches at quiescence (served {sorted(want, key=str)}; open {have})",
+                                     clause='coverage', through='discovery'))
+        for key, n in have.items():
+            if key not in want:
+                out.append(self.viol(env, 'watch-redundant', f"pair {key} is not served (any more) but has {n} open watch(es); served {sorted(want, key=str)}",
+                                     clause='coverage', through='discovery'))
+        return out
+
+
+def discovery_scenarios(tier: str) -> list[DiscoveryScenario]:
+    alphabet = ['addns', 'delns', 'addcrd', 'delcrd', 'decat', 'addver', 'delver']
+    depth = 3 if tier == 'quick' else 4
+    out = []
+    for d in range(0, depth + 1):
+        for combo in itertools.product(alphabet, repeat=d):
+            ns = crd = cat = ver = False
+            ok = True
+            for a in combo:
+                if a == 'addns':
+                    ok &= not ns; ns = True
+                elif a == 'delns':
+                    ok &= ns; ns = False
+                elif a == 'addcrd':
+                    ok &= not crd; crd = cat = True
+                elif a == 'delcrd':
+                    ok &= crd; crd = cat = False
+                elif a == 'decat':
+                    ok &= crd and cat; cat = False
+                elif a == 'addver':
+                    ok &= not ver; ver = True
+                elif a == 'delver':
+                    ok &= ver; ver = False
+            if not ok:
+                continue
+            for spacing in (4.0, 0.0):
+                if spacing == 0.0 and d < 2:
+                    continue
+                user = [(5.0 + i * spacing, a) for i, a in enumerate(combo)]
+                out.append(DiscoveryScenario(user=user, spacing=spacing, horizon=5.0 + d * spacing + 30.0))
+    return out
+
+
 def orchestration_scenarios(tier: str) -> list[OrchestrationScenario]:
     out = []
     alphabet = [('addns', 'n1'), ('addns', 'n2'), ('delns', 'n1'), ('delns', 'n2'), ('addres', 'r1'), ('addres', 'r2'), ('delres', 'r1'), ('delres', 'r2')]
@@ -434,14 +581,17 @@ def orchestration_scenarios(tier: str) -> list[OrchestrationScenario]:
 def run(tier: str, seed: int) -> CheckResult:
     scripted, searched = watch_scenarios(tier)
     orch = orchestration_scenarios(tier)
+    disc = discovery_scenarios(tier)
     orch_back_to_back = [s for s in orch if s.params['spacing'] == 0.0]
     orch_spaced = [s for s in orch if s.params['spacing'] != 0.0]
     if tier == 'quick':
         groups = [('watch-faults-scripted', scripted, 0, 30.0), ('watch-faults-searched', searched, 2, 40.0),
-                  ('orchestration-spaced', orch_spaced, 0, 30.0), ('orchestration-back-to-back', orch_back_to_back, 1, 60.0)]
+                  ('orchestration-spaced', orch_spaced, 0, 30.0), ('orchestration-back-to-back', orch_back_to_back, 1, 60.0),
+                  ('discovery', disc, 0, 60.0)]
     else:
         groups = [('watch-faults-scripted', scripted, 1, 300.0), ('watch-faults-searched', searched, 3, 600.0),
-                  ('orchestration-spaced', orch_spaced, 0, 300.0), ('orchestration-back-to-back', orch_back_to_back, 2, 900.0)]
+                  ('orchestration-spaced', orch_spaced, 0, 300.0), ('orchestration-back-to-back', orch_back_to_back, 2, 900.0),
+                  ('discovery', disc, 1, 600.0)]
     stats, viols, info, nscen = run_groups(groups, seed=seed)
     return CheckResult(
         prop='C19', tier=tier, seed=seed, stats=stats, violations=viols, scenarios=nscen,
@@ -457,7 +607,7 @@ def run(tier: str, seed: int) -> CheckResult:
 
 
 def scenario_from(name: str, params: dict[str, Any]) -> Scenario:
-    return {'c19-watch': WatchScenario, 'c19-orchestration': OrchestrationScenario}[name](**params)
+    return {'c19-watch': WatchScenario, 'c19-orchestration': OrchestrationScenario, 'c19-discovery': DiscoveryScenario}[name](**params)
 
 
 def replay(rec: dict[str, Any]) -> int:
